@@ -55,7 +55,7 @@ def dataSent {α β} : List (Ev α β) → Nat
   | _ :: t => dataSent t
 
 /-- candidate moves at an environment turn (a superset of the legal ones) -/
-def candMoves (sh : Shape) (g : G) (nSinks : Nat) (next : Int) : List (Move Int) :=
+def candMoves (sh : Shape) (g : Ph) (nSinks : Nat) (next : Int) : List (Move Int) :=
   let ks := List.range (if sh.multiSink then nSinks else 1)
   let is := List.range (max sh.nSrc g.src.length)
   (ks.map fun k => Move.call (.subscribe k)) ++
@@ -65,7 +65,7 @@ def candMoves (sh : Shape) (g : G) (nSinks : Nat) (next : Int) : List (Move Int)
   [Move.ret]
 
 def legalMoves {St Loc β} (M : Machine St Loc Int β) (nSinks : Nat) (s : Sys St Loc Int β) : List (Move Int × Sys St Loc Int β) :=
-  (candMoves M.shape s.g nSinks (dataSent s.tr + 1)).filterMap fun m =>
+  (candMoves M.shape s.g.ph nSinks (dataSent s.tr + 1)).filterMap fun m =>
     match envMove M s m with
     | some s1 => some (m, settle M s1)
     | none => none
